@@ -30,6 +30,8 @@ pub enum Error {
     InvalidInteger,
     InvalidFloat,
     ExpectBinOpToken,
+    DivideByZero,
+    ArithmeticOverflow,
 }
 
 #[cfg(not(tarpaulin_include))]
@@ -67,6 +69,8 @@ impl fmt::Display for Error {
             InvalidInteger => write!(f, "invalid integer"),
             InvalidFloat => write!(f, "invalid float"),
             ExpectBinOpToken => write!(f, "expect bin op token"),
+            DivideByZero => write!(f, "divide by zero"),
+            ArithmeticOverflow => write!(f, "arithmetic overflow"),
         }
     }
 }
